@@ -25,29 +25,35 @@ RULE = ("three kinds of case. (1) intf: an interface stanza rendered from a stru
         "non-trivial = a stanza with >= 2 described children / a route with >= 2 optional slots / a config with an indented line.")
 LEVEL_TEXT = ("PARTIAL (the regex -> word-matcher step is modelled, not proved). Theorems (Lean 4, all descriptions, no size bound) about the "
               "token-level model Ccp.Ios: lex_render_line -- a line 'indent ++ words joined by single blanks' lexes to exactly that indent and "
-              "those words; intf_accessors_roundtrip -- for every structured description d, every list of unrelated lines and every child list "
-              "that is a permutation/interleaving of both, under any interface header, description, vrf, manual_mtu, manual_ip_mtu, is_shutdown, "
+              "those words; stanza_family -- for a header 'interface <name words>' at column 0 and children that are renderings of valid items "
+              "at indent 1 (no banner start, blank lines kept, 'i' no comment delimiter) Ccp.Tree.parse (via C02 parse_links_eq_spec) gives the "
+              "header exactly those children and C05's order yields the flat family; intf_accessors_roundtrip / intf_accessors_on_parse -- for "
+              "every structured description d, every list of unrelated lines (incl. 'ip ...' lines whose second word is not address/mtu/vrf/ip) "
+              "and every child list that is a permutation/interleaving of both, description, vrf, manual_mtu, manual_ip_mtu, is_shutdown, "
               "ipv4_addr, ipv4_netmask, ipv4_addr_object, portchannel_number, is_in_portchannel, is_switchport, has_manual_switch_access/trunk, "
-              "access_vlan and native_vlan return d's value, or the documented default ('' / -1 / False / 1 for a switchport) when the command is "
-              "absent; intf_masklength_roundtrip -- ipv4_masklength / ipv4_addr_object = a/l for a mask of length l, -1 / default object without "
-              "address; header_roundtrip -- name of a rendered interface line and its dispatch to IOSIntfLine; route_roundtrip / "
-              "route_accessors_roundtrip -- for every (vrf?, prefix, mask, intf?, nh?, global?, ad?, name?, permanent|track?, tag?) with at least "
-              "one of intf/nh the slot consumer standing for _RE_IP_ROUTE returns every described value and the defaults ('' / 1 / False; "
-              "global_next_hop True without vrf); route_f25_witness -- the excluded corner really differs; factory_transparent -- texts, parents "
-              "and child lists are a function of (syntax flag, delimiters, ignore_blank, lines) only: the tree builder Ccp.Tree.parse has no "
-              "class/factory input; stanza_family_example -- on a concrete 9-child stanza Ccp.Tree.parse + C05's order give exactly the family "
-              "the theorems speak about. NOT proved, correspondence only: trunk_vlans_allowed, ip_secondary_addresses/networks, port_type, "
-              "interface_number, subinterface_number, ordinal_list, and the general form of stanza_family. The model is tied to IOSIntfLine / "
-              "IOSRouteLine / CiscoConfParse(factory=True) by differential runs on every check, incl. whitespace variants and malformed lines.")
+              "access_vlan and native_vlan of line 0 of the parsed stanza return d's value, or the documented default ('' / -1 / False / 1 for a "
+              "switchport); intf_masklength_roundtrip; secondaries_roundtrip -- the secondary loop collects exactly the described (address, "
+              "prefix length) pairs; trunk_vlans_roundtrip -- empty for a non-switchport / mode access, else 1..4094 (no line or 'all'), empty "
+              "('none'), or the sorted union of the written parts through C14's Range.parse; port_type_roundtrip; ordinal_list_roundtrip -- "
+              "through C15's Ccp.Intf.parse and name_roundtrip (one-word names); subinterface_number_roundtrip / interface_number_roundtrip -- the "
+              "two lazy regex groups give the whole number word / the number word without the trailing .sub, for prefix+digits+rest names "
+              "with any accepted class-word tail; header_roundtrip -- name and dispatch to IOSIntfLine; "
+              "route_roundtrip / route_accessors_roundtrip -- for every (vrf?, prefix, mask, intf?, nh?, global?, ad?, name?, permanent|track?, "
+              "tag?) with at least one of intf/nh the slot consumer standing for _RE_IP_ROUTE returns every described value and the defaults; "
+              "route_f25_witness; factory_transparent -- texts, parents and child lists are a function of (syntax flag, delimiters, ignore_blank, "
+              "lines) only: Ccp.Tree.parse has no class/factory input. NOT proved, correspondence only: "
+              "ordinal_list with a class word, interface_number of '.sub:chan' names, add/remove/except lines of trunk_vlans_allowed, unrelated lines starting with 'switchport'. The "
+              "model is tied to IOSIntfLine / IOSRouteLine / CiscoConfParse(factory=True) by differential runs on every check, incl. whitespace "
+              "variants and malformed lines.")
 LEVEL_NOTE = ("Trusted: Lean kernel; axioms propext/Classical.choice/Quot.sound only; the correspondence harness. Modelled, not proved: each "
               "regular expression of models_cisco.py is hand-translated into a matcher over (leading whitespace, words, gaps); Python's re is "
               "never executed by the model, agreement is measured. IPv4Obj is re-implemented for canonical quads and contiguous netmasks; "
-              "CiscoIOSInterface (ordinal_list) by a small scanner; CiscoRange text parsing is C14's model. Which class the factory picks and "
-              "whether it accepts a line (constructors may raise) is outside the model: factory_transparent is a statement about the tree "
-              "builder; that the real factory=True parse yields the same texts/links is measured (tree dumps on vs off), not proved. "
-              "The theorems' description grammar has one 'allowed vlan' line and no add/remove/except lines, unrelated lines start with a "
-              "non-keyword (lines such as 'ip ospf cost 10' or 'no shutdown' that the generator interleaves are covered by the "
-              "correspondence and the oracle, and 'no ...' lines by the theorem, 'ip ...' unrelated lines not).")
+              "CiscoIOSInterface (ordinal_list) is C15's model Ccp.Intf.parse; CiscoRange text parsing is C14's model. Which class the factory "
+              "picks and whether it accepts a line (constructors may raise) is outside the model: factory_transparent is a statement about the "
+              "tree builder; that the real factory=True parse yields the same texts/links is measured (tree dumps on vs off), not proved. "
+              "The theorems' description grammar has one 'allowed vlan' line; ordinal_list_roundtrip assumes the rendered name has no whitespace "
+              "(true for names without class word, not proved). stanza_family keeps the hypothesis 'no line is a banner start': an unanchored "
+              "'aaa authentication fail-message' inside a description would make the line a banner start.")
 EXHAUSTIVE = {"quick": False, "thorough": False}
 ASSUMPTIONS = [
     "no line-break character inside a config line; ASCII digits only",
